@@ -15,7 +15,7 @@ META = {
     'bounds': {'quick': '4x4 rasters (symbolic cells, NaN allowed for the 3x3-window terrain operations) over a seeded third of the 64 chunk grids (always including single-chunk, all 1-cell chunks '
                         'and the most uneven ones) for slope, aspect, curvature, hillshade, focal mean (passes 1, 2), focal apply / focal_stats with kernels 3x3, 1x3, 3x1, 3x5, 5x3, '
                         'convolution_2d with symbolic weights for the same kernel shapes, hotspots; 2x2 rasters over all 4 chunk grids for binary, reclassify, equal_interval, the ten spectral '
-                        'indices and true_color (differently chunked band rasters included); perlin / terrain: concrete seeds, 2 grids (enumerated, not solved); integer rasters (int32, uint8) 3x4 over 3 seeded grids for slope, aspect, curvature, hillshade, focal mean and 2 grids for apply / convolution_2d / focal_stats',
+                        'indices and true_color (differently chunked band rasters included); perlin / terrain: concrete seeds, 2 grids (enumerated, not solved); integer rasters (int32, uint8) 3x4 over 3 seeded grids for slope, aspect, curvature, hillshade, focal mean and 2 grids for apply / convolution_2d / focal_stats; joint evaluation: for 13 functions two lazy results (same raster with different parameters, or two rasters) computed in one dask.compute; curvature / slope 3x3 under the float32 store model; focal mean with excludes=[0]; hillshade with symbolic azimuth / altitude',
                'thorough': 'every one of the 64 grids of 4x4 for every window operation and kernel shape, 4x5 for 3x5 kernels'},
     'stubs': ['dask.array = sx.symda contract shim: map_overlap(depth per axis, constant boundary, dask\'s minimum-chunk-size re-chunking ported verbatim), map_blocks with chunk unification, '
               'global reductions over the whole array; validated against real dask by concrete replay of sampled path models on every run'],
@@ -58,7 +58,7 @@ def jobs(tier, seed):
         for (cy, cx) in _grids(3, 3, tier, seed + 19, 2 if tier == 'quick' else 6):
             out.append({'name': '%s-3x3-f32model-%s-%s' % (op, 'x'.join(map(str, cy)), 'x'.join(map(str, cx))), 'op': op, 'shape': [3, 3], 'chunks': [list(cy), list(cx)], 'f32': True})
     # two lazy results evaluated together in one graph (dask.compute(r1, r2)): each must still equal its own NumPy result
-    for op in ('hillshade', 'aspect', 'slope', 'curvature', 'reclassify', 'equal_interval', 'mean1', 'convolution', 'ndvi', 'perlin'):
+    for op in ('hillshade', 'aspect', 'slope', 'curvature', 'reclassify', 'equal_interval', 'binary', 'mean1', 'apply', 'focal_stats', 'convolution', 'ndvi', 'perlin'):
         out.append({'name': 'joint-%s-3x3' % op, 'op': 'joint', 'fn': op, 'shape': [3, 3], 'chunks': [[2, 1], [1, 2]]})
     # focal mean with an explicit excludes list that does not contain NaN (the NaN halo then takes part in the window like on the raster edge)
     for op in ('mean1e', 'mean2e'):
@@ -109,6 +109,15 @@ def body_joint(ctx, job, pair, h, w):
         calls = [('classify:equal_interval', (2,)), ('classify:equal_interval', (3,))]
     elif fn == 'mean1':
         calls = [('focal:mean', (1,)), ('focal:mean', (2,))]
+    elif fn == 'binary':
+        calls = [('classify:binary', ([1.0, 2.0],)), ('classify:binary', ([3.0, 4.5],))]
+    elif fn == 'apply':
+        ka = symnp.asarray([[0.0, 1.0, 0.0], [1.0, 1.0, 1.0], [0.0, 1.0, 0.0]], 'float64')
+        kb = symnp.asarray([[1.0, 1.0, 1.0]], 'float64')
+        calls = [('focal:apply', (ka,)), ('focal:apply', (kb,))]
+    elif fn == 'focal_stats':
+        ka = symnp.asarray([[0.0, 1.0, 0.0], [1.0, 1.0, 1.0], [0.0, 1.0, 0.0]], 'float64')
+        calls = [('focal:focal_stats', (ka, ['max', 'sum'])), ('focal:focal_stats', (ka, ['min']))]
     elif fn == 'convolution':
         k1 = symnp.asarray([[0.0, 1.0, 0.0], [1.0, 1.0, 1.0], [0.0, 1.0, 0.0]], 'float64')
         k2 = symnp.asarray([[1.0, 0.0, 1.0], [0.0, 2.0, 0.0], [1.0, 0.0, 1.0]], 'float64')
@@ -129,14 +138,18 @@ def body_joint(ctx, job, pair, h, w):
         ref = [vals(ctx.call(calls[0][0], pn1, *calls[0][1])), vals(ctx.call(calls[1][0], pn2, *calls[1][1]))]
         got = ctx.call_joint([(calls[0][0], (pa1,) + tuple(calls[0][1]), {}), (calls[1][0], (pa2,) + tuple(calls[1][1]), {})])
     else:
-        if fn in ('hillshade', 'reclassify', 'equal_interval', 'mean1', 'convolution'):
+        if fn in ('hillshade', 'reclassify', 'equal_interval', 'binary', 'mean1', 'apply', 'focal_stats', 'convolution'):
             n2, a2 = n1, a1           # same raster, different parameters (a layer name derived from the input alone collides)
         ref = [vals(ctx.call(calls[0][0], n1, *calls[0][1])), vals(ctx.call(calls[1][0], n2, *calls[1][1]))]
         got = ctx.call_joint([(calls[0][0], (a1,) + tuple(calls[0][1]), {}), (calls[1][0], (a2,) + tuple(calls[1][1]), {})])
     for k_, (r, g) in enumerate(zip(ref, got)):
         gv = vals(g)
         ctx.observe('joint%d' % k_, gv)
-        for c in cells((h, w)):
+        ok_shape = tuple(gv.shape) == tuple(r.shape)
+        ctx.check('computed-together-same-shape', ok_shape)
+        if not ok_shape:
+            continue
+        for c in cells(tuple(gv.shape)):
             ctx.check('computed-together-equals-numpy', ctx.close(gv[c], r[c], TOL32),
                       info=lambda m, c=c, k_=k_, gv=gv, r=r: {'fn': fn, 'result': k_, 'cell': list(c), 'dask_joint': ctx.ev(m, gv[c]), 'numpy': ctx.ev(m, r[c])})
 
